@@ -13,6 +13,7 @@ mod util;
 mod witness;
 mod world;
 mod xfer_stream;
+mod scale_stream;
 mod wrappers;
 use util::*;
 
@@ -67,6 +68,7 @@ fn main() {
         "hostile" => hostile_stream::run(&o),
         "async" => async_stream::run(&o),
         "xfer" => xfer_stream::run(&o),
+        "scale" => scale_stream::run(&o),
         "replay" => replay::run(&o),
         "witness" => witness::run(&o),
         s => {
